@@ -82,9 +82,14 @@ def compare_shard(cfg, ops_p, impl_p, model_p, oc, tag):
         oc.hashes.add(h)
         if case_tags & cfg.nontrivial:
             oc.nontrivial_hashes.add(h)
-        if len(oc.samples) < 3 and (case_tags & cfg.nontrivial):
-            oc.samples.append(dict(ops=ops[start:min(end, start + 40)], impl=impl[start:min(end, start + 40)],
-                                   tags=sorted(case_tags)))
+        if case_tags & cfg.nontrivial:
+            # keep the three cases with the richest set of model branches as samples
+            score = len(case_tags)
+            if len(oc.samples) < 3 or score > min(x["_score"] for x in oc.samples):
+                oc.samples.append(dict(ops=ops[start:min(end, start + 40)], impl=impl[start:min(end, start + 40)],
+                                       tags=sorted(case_tags), _score=score))
+                oc.samples.sort(key=lambda x: -x["_score"])
+                del oc.samples[3:]
 
     case_tags = set()
     case_failed = False
@@ -424,7 +429,7 @@ def _run_check(cfg, tier, seed, work, t0):
             evaluations=oc.cases, distinct_nontrivial=len(oc.nontrivial_hashes), distinct=len(oc.hashes),
             operations=oc.ops,
             rule=cfg.rule,
-            samples=oc.samples[:3] if oc.samples else [dict(note="no non-trivial sample in this run")],
+            samples=[{k: v for k, v in x.items() if k != '_score'} for x in oc.samples[:3]] if oc.samples else [dict(note="no non-trivial sample in this run")],
             model_branch_tags=dict(sorted(oc.tagcount.items())),
             impl_output_kinds=dict(sorted(oc.outkinds.items())),
             correspondence=dict(l1_differences=len(oc.l1), l2_differences=len(oc.l2), spec_rejections=len(oc.spec_viol),
